@@ -144,8 +144,11 @@ class Ctx:
         timeout = timeout or self.default_timeout
         assumptions = list(assumptions)
         if not z3.is_expr(goal):
-            # the code under test produced a concrete truth value where a symbolic one is expected (e.g. a value it kept from before)
-            goal = z3.BoolVal(bool(goal.t if hasattr(goal, "t") else goal))
+            if hasattr(goal, "t") and z3.is_expr(goal.t):
+                goal = goal.t              # a symbolic truth value of the executor
+            else:
+                # the code under test produced a concrete truth value where a symbolic one is expected (e.g. a value it kept from before)
+                goal = z3.BoolVal(bool(goal))
         extra = ex.cone(assumptions + [goal]) if ex is not None else []
         if vacuity:
             key = hashlib.sha1(("\n".join(sorted(a.sexpr() for a in assumptions + extra))).encode()).hexdigest()
